@@ -36,6 +36,22 @@ class StrMixin(object):
                 self.assumptions.add("str.strip(c) modelled only for strings without c at the ends and for "
                                      "c+body+c with body free of c at its ends (other shapes unconstrained)")
                 return vstr(f(s))
+        if meth == "format":
+            tpl = z3.simplify(s)
+            if not z3.is_string_value(tpl):
+                raise Unsupported("format with a non-constant template")
+            parts = tpl.as_string().split("{}")
+            if len(parts) != len(args) + 1 or "{" in "".join(parts) or "}" in "".join(parts):
+                return self.ctx.fresh("formatted", STR)       # message formatting: opaque
+            pieces = []
+            for i, p in enumerate(parts):
+                if p:
+                    pieces.append(z3.StringVal(p))
+                if i < len(args):
+                    pieces.append(self.bi_str([args[i]], {}, node).t)
+            if not pieces:
+                return vstr("")
+            return vstr(z3.Concat(*pieces) if len(pieces) > 1 else pieces[0])
         if meth == "startswith" and len(args) == 1 and args[0].ty == STR:
             return vbool(z3.PrefixOf(args[0].t, s))
         if meth == "endswith" and len(args) == 1 and args[0].ty == STR:
